@@ -27,7 +27,11 @@ Inductive spkt :=
 | SPother                                            (* Handshake / Retry type *)
 | SPinitial (size : Z) (dcid scid : cid) (tok : tclass) (addr : Z) (intact : bool) (newcid : cid).
 
-Inductive sop := SRecv (now : Z) (p : spkt) | SDrain.
+Inductive sop :=
+| SRecv (now : Z) (p : spkt)
+| SDrain
+| SClose (n : Z)                 (* connection n ends: every connection ID it registered is removed from the routing map (by key) *)
+| SRetire (n : Z) (k : cid).     (* connection n retires connection ID k (the client's DCID once the handshake is confirmed) *)
 
 Record scfg := mkCfg {
   disableVN : bool;
@@ -42,7 +46,9 @@ Definition rej := (Z * cid * cid * bool)%type.
 Record sst := mkS {
   handlers : list (cid * Z);            (* routing map: connection ID -> connection number *)
   nconn : Z;
-  created : list (Z * cid * Z * bool);   (* connection number, client DCID, address, address verified *)
+  created : list (Z * cid * Z * bool);   (* history: connection number, client DCID, address, address verified *)
+  owns : list (Z * cid);                (* live registrations: connection number, connection ID it registered in the routing map
+                                            (its client's DCID until that is retired, and its own first connection ID) *)
   zq : list (cid * (Z * Z));            (* 0-RTT queues: connection ID -> (packets, expiration) *)
   nextCleanup : Z;                      (* 0 = unset *)
   vnq : list Z;                         (* addresses *)
@@ -51,7 +57,7 @@ Record sst := mkS {
   retryq : list rej
 }.
 
-Definition s0 : sst := mkS [] 0 [] [] 0 [] [] [] [].
+Definition s0 : sst := mkS [] 0 [] [] [] 0 [] [] [] [].
 
 Inductive sout :=
 | SDrop (bufInUse : bool)
@@ -62,7 +68,8 @@ Inductive sout :=
 | SRetry (queued : bool)
 | SRefused (queued : bool)
 | SNewConn (n : Z) (odcid : cid) (rscid : option cid) (verified : bool) (rtt : Z) (early : Z)
-| SDrained (sends : list (Z * Z * cid * cid)).   (* kind (0 VN, 1 INVALID_TOKEN, 2 REFUSED, 3 Retry), address, DCID and SCID of the rejected packet *)
+| SDrained (sends : list (Z * Z * cid * cid))
+| SRemoved (k : Z).              (* number of routing entries removed *)   (* kind (0 VN, 1 INVALID_TOKEN, 2 REFUSED, 3 Retry), address, DCID and SCID of the rejected packet *)
 
 Fixpoint hget (c : cid) (h : list (cid * Z)) : option Z :=
   match h with [] => None | (k, n) :: r => if cid_eqb k c then Some n else hget c r end.
@@ -82,12 +89,12 @@ Fixpoint zinc (c : cid) (q : list (cid * (Z * Z))) : list (cid * (Z * Z)) :=
   | (k, (n, e)) :: r => if cid_eqb k c then (k, (n + 1, e)) :: r else (k, (n, e)) :: zinc c r
   end.
 
-Definition set_h (s : sst) h n c := mkS h n c (zq s) (nextCleanup s) (vnq s) (invq s) (refq s) (retryq s).
-Definition set_zq (s : sst) q nc := mkS (handlers s) (nconn s) (created s) q nc (vnq s) (invq s) (refq s) (retryq s).
-Definition set_vnq (s : sst) q := mkS (handlers s) (nconn s) (created s) (zq s) (nextCleanup s) q (invq s) (refq s) (retryq s).
-Definition set_invq (s : sst) q := mkS (handlers s) (nconn s) (created s) (zq s) (nextCleanup s) (vnq s) q (refq s) (retryq s).
-Definition set_refq (s : sst) q := mkS (handlers s) (nconn s) (created s) (zq s) (nextCleanup s) (vnq s) (invq s) q (retryq s).
-Definition set_retryq (s : sst) q := mkS (handlers s) (nconn s) (created s) (zq s) (nextCleanup s) (vnq s) (invq s) (refq s) q.
+Definition set_h (s : sst) h n c := mkS h n c (owns s) (zq s) (nextCleanup s) (vnq s) (invq s) (refq s) (retryq s).
+Definition set_zq (s : sst) q nc := mkS (handlers s) (nconn s) (created s) (owns s) q nc (vnq s) (invq s) (refq s) (retryq s).
+Definition set_vnq (s : sst) q := mkS (handlers s) (nconn s) (created s) (owns s) (zq s) (nextCleanup s) q (invq s) (refq s) (retryq s).
+Definition set_invq (s : sst) q := mkS (handlers s) (nconn s) (created s) (owns s) (zq s) (nextCleanup s) (vnq s) q (refq s) (retryq s).
+Definition set_refq (s : sst) q := mkS (handlers s) (nconn s) (created s) (owns s) (zq s) (nextCleanup s) (vnq s) (invq s) q (retryq s).
+Definition set_retryq (s : sst) q := mkS (handlers s) (nconn s) (created s) (owns s) (zq s) (nextCleanup s) (vnq s) (invq s) (refq s) q.
 
 (** handle0RTTPacket *)
 Definition recv_0rtt (s : sst) (now : Z) (dcid : cid) : sst * sout :=
@@ -144,7 +151,7 @@ Definition recv_initial (c : scfg) (s : sst) (dcid scid : cid) (tok : tclass) (a
       let n := nconn s in
       let early := match zget dcid (zq s) with Some (k, _) => k | None => 0 end in
       let h := hput newcid n (hput dcid n (handlers s)) in
-      (mkS h (n + 1) (created s ++ [(n, dcid, addr, verified)]) (zdel dcid (zq s)) (nextCleanup s)
+      (mkS h (n + 1) (created s ++ [(n, dcid, addr, verified)]) (owns s ++ [(n, dcid); (n, newcid)]) (zdel dcid (zq s)) (nextCleanup s)
            (vnq s) (invq s) (refq s) (retryq s),
        SNewConn n od rs verified rtt early)
   end.
@@ -192,10 +199,34 @@ Definition drain (s : sst) : sst * sout :=
                 (filter (fun r => match r with (_, _, _, i) => i end) (invq s)) in
   let k2 := map (fun r => match r with (a, d, sc, _) => (2, a, d, sc) end) (refq s) in
   let k3 := map (fun r => match r with (a, d, sc, _) => (3, a, d, sc) end) (retryq s) in
-  (mkS (handlers s) (nconn s) (created s) (zq s) (nextCleanup s) [] [] [] [], SDrained (k0 ++ k1 ++ k2 ++ k3)).
+  (mkS (handlers s) (nconn s) (created s) (owns s) (zq s) (nextCleanup s) [] [] [] [], SDrained (k0 ++ k1 ++ k2 ++ k3)).
+
+Fixpoint hdel (c : cid) (h : list (cid * Z)) : list (cid * Z) :=
+  match h with [] => [] | (k, n) :: r => if cid_eqb k c then hdel c r else (k, n) :: hdel c r end.
+Definition hdel_all (ks : list cid) (h : list (cid * Z)) : list (cid * Z) := fold_left (fun h k => hdel k h) ks h.
+Definition owned_by (n : Z) (o : list (Z * cid)) : list cid :=
+  map snd (filter (fun x => fst x =? n) o).
+
+(** packetHandlerMap.Remove for every ID of a closing connection (connIDGenerator.RemoveAll) / for one retired ID *)
+Definition close_conn (s : sst) (n : Z) : sst * sout :=
+  let ks := owned_by n (owns s) in
+  let h := hdel_all ks (handlers s) in
+  (mkS h (nconn s) (created s) (filter (fun x => negb (fst x =? n)) (owns s)) (zq s) (nextCleanup s) (vnq s) (invq s) (refq s) (retryq s),
+   SRemoved (zlen (handlers s) - zlen h)).
+Definition retire_id (s : sst) (n : Z) (k : cid) : sst * sout :=
+  if existsb (fun x => (fst x =? n) && cid_eqb (snd x) k) (owns s) then
+    let h := hdel k (handlers s) in
+    (mkS h (nconn s) (created s) (filter (fun x => negb ((fst x =? n) && cid_eqb (snd x) k)) (owns s)) (zq s) (nextCleanup s) (vnq s) (invq s) (refq s) (retryq s),
+     SRemoved (zlen (handlers s) - zlen h))
+  else (s, SRemoved 0).
 
 Definition sstep (c : scfg) (s : sst) (o : sop) : sst * sout :=
-  match o with SRecv now p => recv c s now p | SDrain => drain s end.
+  match o with
+  | SRecv now p => recv c s now p
+  | SDrain => drain s
+  | SClose n => close_conn s n
+  | SRetire n k => retire_id s n k
+  end.
 
 Fixpoint srun (c : scfg) (s : sst) (ops : list sop) : sst * list sout :=
   match ops with
